@@ -92,7 +92,7 @@ def generate(prop, rng, index, tier):
                       "mask": mask, "maskkind": mk})
         if rng.random() < 0.2:
             # the result carries a fill value of its own (as results of EEMSRead and of other tools do)
-            grids[-1]["fill"] = rng.choice(["nan", -9999.0, 0.0]) if gdt == "f8" else rng.choice([-1, 0, 255])
+            grids[-1]["fill"] = rng.choice(["nan", "inf", -9999.0, 0.0]) if gdt == "f8" else rng.choice([-1, 0, 255])
     reads = []
     for _ in range(rng.randint(1, 4)):
         g = rng.randrange(ngrids)
@@ -223,7 +223,7 @@ def execute(sc):
                     else:
                         arr = numpy.ma.array(data, mask=numpy.array(g["mask"], dtype=bool).reshape(shape))
                     if g.get("fill") is not None:
-                        fv = float("nan") if g["fill"] == "nan" else g["fill"]
+                        fv = float(g["fill"]) if isinstance(g["fill"], str) else g["fill"]
                         if not (g["dtype"] == "u8" and fv < 0):
                             arr.fill_value = fv
                             res.probe("result with a fill value of its own")
